@@ -410,6 +410,7 @@ pub fn meta(rep: &mut Report) {
     ];
 }
 
+#[derive(Clone)]
 struct Case {
     spec: SysSpec,
     named: bool,
@@ -424,10 +425,13 @@ fn report(c: &Case, f: &Fail, order: u64, rep: &Report) {
     let class = f.class.clone();
     let min = shrink_spec(&c.spec, &|s| matches!(check_case(s, c.named, c.pass).0, Some(g) if g.class == class));
     let f2 = check_case(&min, c.named, c.pass).0.filter(|g| g.class == class).unwrap_or_else(|| f.clone());
-    let sig = format!("C11|{}|{}{}|{}|{}", f2.class, c.pass.name(), if c.named { "+names" } else { "" }, if f2.width == 0 { "-" } else { wclass(f2.width) }, f2.shape);
+    // the root operator of the original function tells simplifier rules apart; for the zero pass
+    // (one substitution, whatever the operator) only the slot kind is kept
+    let shape = if c.pass == Pass::Zero { f2.shape.split(':').next().unwrap_or("-").to_string() } else { f2.shape.clone() };
+    let sig = format!("C11|{}|{}|{}|{}", f2.class, c.pass.name(), if f2.width == 0 { "-" } else { wclass(f2.width) }, shape);
     rep.violation(Violation {
         sig,
-        what: format!("[{}] {}", sys_class(&c.spec), f2.what),
+        what: format!("[{}{}] {}", sys_class(&c.spec), if c.named { ", named nodes" } else { "" }, f2.what),
         case: json!({"system": min.to_json(), "named": c.named, "pass": c.pass.name(), "found_in": c.spec.to_json()}),
         order,
     });
@@ -447,6 +451,7 @@ pub fn run(opts: &Opts, rep: &Report) {
     }
     let capped = AtomicBool::new(false);
     let skipped = AtomicU64::new(0);
+    let failing: Collector<(Case, Fail)> = Collector::default();
     specs.par_iter().enumerate().for_each(|(idx, spec)| {
         if budget.exceeded() {
             capped.store(true, Ordering::Relaxed);
@@ -486,7 +491,7 @@ pub fn run(opts: &Opts, rep: &Report) {
             }
             if let Some(f) = f {
                 *counts.entry("cases_failing".into()).or_default() += 1;
-                report(c, &f, (idx as u64) * 1000 + ci as u64, rep);
+                failing.offer(&format!("{}|{}|{}", f.class, c.pass.name(), if c.pass == Pass::Zero { f.shape.split(':').next().unwrap_or("-") } else { &f.shape }), (idx as u64) * 1000 + ci as u64, || (c.clone(), f.clone()));
             }
             if idx % 4001 == 7 && ci == 0 {
                 rep.sample(json!({"case": case_json(c), "changed": info.changed, "functions_compared": info.functions_compared}));
@@ -495,6 +500,8 @@ pub fn run(opts: &Opts, rep: &Report) {
         rep.merge_counts(&counts);
         rep.distinct_hashes(&nontrivial);
     });
+    let failing = failing.drain();
+    failing.par_iter().for_each(|(order, (c, f))| report(c, f, *order, rep));
     if capped.load(Ordering::Relaxed) {
         rep.cap_hit(&format!("wall budget {}s: {} systems not checked", opts.budget_s, skipped.load(Ordering::Relaxed)));
     }
